@@ -7,7 +7,7 @@ CONSTANTS
   Cfgs <- MCCfgs
   Replies <- MCReplies
   Idents <- MCIdents
-INVARIANTS SelectedWasOffered NoCredBeforeTls OnlyNegoOnRaw MustSucceed MandatedPrefix JoinsOncePerChannel ConnIdsEcho WindowAgreement InputGated IdsEcho
+INVARIANTS SelectedWasOffered NoCredBeforeTls OnlyNegoOnRaw MustSucceed MandatedPrefix JoinsOncePerChannel ConnIdsEcho ModeTable WindowAgreement InputGated IdsEcho
 PROPERTIES SilentAfterRefusal OneFinalisePerDA
 CONSTRAINT Bound
 CHECK_DEADLOCK FALSE
